@@ -101,6 +101,23 @@ def case_laws(ctx, N, T, C, k, nan_channel):
             cond = and_(cond, or_(and_(pv > 0, g <= pv * 1.5), and_(pv < 0, g <= -pv * 1.5)))
             swaps.append(cond)
         ctx.oblige("peak_is_global_extremum_or_documented_swap", or_(is_global, any_(swaps)), detail={"n": n, "peak_val": pv, "pt": pt, "pc": pc})
+        # the swap happens exactly when documented: first global extremum g at tg (positive), first minimum of the trace from tg on
+        # at tq, |g / x[tq]| <= 1.5  =>  the reported peak is tq; otherwise the reported peak is tg
+        for tg in range(T):
+            g = vals[n][tg][pc]
+            first_global = and_(all_([abs(g) >= a for a in amax]), all_([abs(vals[n][t][pc]) < abs(g) for t in range(tg)]))
+            if C > 1:
+                # the peak channel is the FIRST channel holding the global extremum
+                first_global = and_(first_global, all_([abs(vals[n][t][c]) < abs(g) for c in range(pc) for t in range(T)]))
+            swapped_any = False
+            for tq in range(tg, T):
+                xq = vals[n][tq][pc]
+                first_min = and_(all_([xq <= vals[n][t][pc] for t in range(tg, T)]), all_([vals[n][t][pc] > xq for t in range(tg, tq)]))
+                ratio_ok = or_(and_(xq > 0, g <= xq * 1.5), and_(xq < 0, g <= -xq * 1.5))
+                should = and_(first_global, and_(g > 0, and_(first_min, ratio_ok)))
+                ctx.oblige("swap_happens_when_documented", implies(should, pt == tq), detail={"n": n, "tg": tg, "tq": tq, "pt": pt})
+                swapped_any = or_(swapped_any, and_(first_min, ratio_ok))
+            ctx.oblige("no_swap_otherwise", implies(and_(first_global, or_(g < 0, not_(swapped_any))), pt == tg), detail={"n": n, "tg": tg, "pt": pt})
         gmax_c = all_([any_([abs(vals[n][t][pc]) >= a for t in range(T)]) for a in amax])
         ctx.oblige("peak_channel_holds_the_global_extremum", gmax_c, detail={"n": n, "pc": pc})
         ctx.oblige("tip_before_peak_not_after_trough", tp < pt and pt <= tr, detail={"n": n, "tip": tp, "peak": pt, "trough": tr})
@@ -220,7 +237,12 @@ for n in range(N):
     r = df.iloc[n]; a = np.nan_to_num(x[n])
     pt, pc, tr, tp, rc = int(r.peak_time_idx), int(r.peak_trace_idx), int(r.trough_time_idx), int(r.tip_time_idx), int(r.recovery_time_idx)
     if r.peak_val != a[pt, pc]: bad.append('peak value')
-    if not (abs(r.peak_val) >= np.abs(a).max() - 1e-12 or r.peak_val <= 0): bad.append('peak not the global extremum')
+    tg = int(np.argmax(np.abs(a[:, pc]))); g = a[tg, pc]
+    exp_pt = tg
+    if g > 0:
+        tq = tg + int(np.argmin(a[tg:, pc])); xq = a[tq, pc]
+        if xq != 0 and abs(g / xq) <= 1.5: exp_pt = tq
+    if np.abs(a[:, pc]).max() >= np.abs(a).max() and pt != exp_pt: bad.append(('peak index', pt, 'expected (global extremum / documented trough swap)', exp_pt))
     if np.abs(a[:, pc]).max() < np.abs(a).max(): bad.append('peak channel')
     if not (tp < pt <= tr): bad.append(('order', tp, pt, tr))
     if rc != min(tr + k, T - 1): bad.append(('recovery', rc, tr, k))
